@@ -393,7 +393,11 @@ func c07ShapedDoc(t *rapid.T, cfg *configuration.Configuration) []byte {
 	var val func(depth int) string
 	scalar := func() string {
 		return rapid.SampledFrom([]string{"1", "-5", "300", "1.5", "\"s\"", "true", "null", "@\"u\"", "2020-01-01", "0x1p3", "-0", "nan",
-			"18446744073709551616", "f81d4fae-7dec-11d0-a765-00a0c91e6bf6", "@u8x[01 02]", "\"\""}).Draw(t, "scalar")
+			"18446744073709551616", "f81d4fae-7dec-11d0-a765-00a0c91e6bf6", "@u8x[01 02]", "\"\"",
+			// decimal literals with exponents at the 32-bit edge: a conversion into a numeric slot must decide "does not
+			// fit" from the exponent, not compute 10^exponent
+			"1000000000000000000000001e2147483640", "12345678901234567890123e2147483647", "-12345678901234567890123e30000000", "7e2147483647",
+			"12345678901234567890123e-2147483640", "1e-2147483000"}).Draw(t, "scalar")
 	}
 	ref := func() string { return fmt.Sprintf("$m%d", rapid.IntRange(0, nmark+1).Draw(t, "refid")) }
 	val = func(depth int) string {
